@@ -1,5 +1,6 @@
 """Tracing catalogue entries through the real pysnark code under the engine, and the shared obligation helpers."""
 import builtins
+import os
 import time
 import z3
 
@@ -151,10 +152,14 @@ class Stats:
         self.syntactic = 0
         self.time = 0.0
         self.samples = []
+        self.cross = dict(cross_checked=0, cross_agree=0, cross_inconclusive=0, cross_disagree=0)
+        self.cross_disagreements = []
 
     def as_dict(self):
-        return dict(queries=self.queries, unsat=self.unsat, sat=self.sat, unknown=self.unknown,
-                    syntactic=self.syntactic, solver_s=round(self.time, 3))
+        d = dict(queries=self.queries, unsat=self.unsat, sat=self.sat, unknown=self.unknown,
+                 syntactic=self.syntactic, solver_s=round(self.time, 3))
+        d.update(self.cross)
+        return d
 
 
 STATS = Stats()
@@ -185,12 +190,56 @@ def solve(facts, goal_neg, timeout_ms=20000, label=None, want_model=True):
         STATS.samples.append(dict(label=label, result=str(r), seconds=round(dt, 3)))
     if r == z3.unsat:
         STATS.unsat += 1
+        _UNSAT_TOTAL[0] += 1
+        if CROSS_EVERY and _UNSAT_TOTAL[0] % CROSS_EVERY == 0:
+            cross_check(facts, goals, label)
         return "unsat", None
     if r == z3.sat:
         STATS.sat += 1
         return "sat", s.model()
     STATS.unknown += 1
     return "unknown", s.reason_unknown()
+
+
+_UNSAT_TOTAL = [0]        # per worker process (the per-job statistics are reset for every job)
+CROSS_EVERY = int(os.environ.get("VERIF_CROSSCHECK_EVERY", "25" if os.environ.get("VERIF_TIER") == "thorough" else "0"))
+
+
+def cross_check(facts, goals, label):
+    """second solver (thorough tier): every CROSS_EVERY-th `unsat` answer is dumped as SMT-LIB2 and given to the z3 4.8.12
+    binary (a different release of the solver, its own front end); `sat` there is a disagreement and makes the obligation
+    inconclusive, `unknown`/timeout/error lines are counted as inconclusive cross-checks only"""
+    import subprocess
+    import tempfile
+    s = z3.Solver()
+    for f in facts:
+        s.add(f)
+    for g in goals:
+        s.add(g)
+    fd, path = tempfile.mkstemp(suffix=".smt2", prefix="verif_cc_")
+    try:
+        with os.fdopen(fd, "w") as fh:
+            fh.write(s.to_smt2())
+        STATS.cross["cross_checked"] += 1
+        try:
+            p = subprocess.run(["/usr/bin/z3", "-T:20", path], capture_output=True, text=True, timeout=40)
+            out = p.stdout.strip().splitlines()
+        except Exception:
+            out = ["timeout"]
+        if any("(error" in l for l in out) or not out:
+            STATS.cross["cross_inconclusive"] += 1
+        elif out[0].strip() == "unsat":
+            STATS.cross["cross_agree"] += 1
+        elif out[0].strip() == "sat":
+            STATS.cross["cross_disagree"] += 1
+            STATS.cross_disagreements.append(str(label))
+        else:
+            STATS.cross["cross_inconclusive"] += 1
+    finally:
+        try:
+            os.remove(path)
+        except OSError:
+            pass
 
 
 def model_inputs(model, vals):
